@@ -109,6 +109,15 @@ class HistoryRun(object):
       self.stats["errors"][k] = self.stats["errors"].get(k, 0) + 1
       if "failed" in self.oracles:
         self._o_failed(rec, before, schema_before)
+      else:
+        # settle the document: the engine does not recalculate after a rollback (C04's recorded finding, judged by
+        # C04's own check), so formula cells touched by the failed bundle are dirty until the next calculation;
+        # without this the NEXT bundle's "before" snapshot would hold those transient values
+        c = self._raw([["Calculate"]])
+        if c.ok and "replica" in self.oracles:
+          for a in c.stored:
+            self.replica.apply(a)
+        self.stats["settling_calculates"] = self.stats.get("settling_calculates", 0) + 1
     return rec
 
   def apply_with_faults(self, uas, kinds=(), max_sites=10):
@@ -304,6 +313,8 @@ class HistoryRun(object):
     cause = classify_failed(rec, fault, doc) or (NUMERIC_NORMALISED_SIG if d and numeric_only(d) else None)
     if cause is None and d and modified_formula_column_only(rec, d, schema_before):
       cause = MODIFY_FORMULA_STALE_SIG
+    if cause is None and d and json_list_parsed_only(d):
+      cause = JSON_LIST_PARSED_SIG
     drift = ed.numeric_drift(before, now)
     if cause is None and drift and not d:
       # the rolled-back type change left numbers of the other numeric type behind (C01/C03's drift finding: the
@@ -333,6 +344,10 @@ class HistoryRun(object):
     elif c.stored:
       if cause is None and all("_summary" in a[1] for a in c.stored):
         cause = SUMMARY_STALE_SIG
+      if cause is None and not d and any(ua[0] in ("RemoveRecord", "BulkRemoveRecord") for ua in rec["actions"]) and \
+          all(a[0] in ("UpdateRecord", "BulkUpdateRecord") and
+              all(trigger_col(schema_before, a[1], cid) for cid in a[3]) for a in (c.raw_stored or [])):
+        cause = TRIGGER_AFTER_ROLLBACK_SIG
       self._find("C04", cause or ("Calculate emits changes after a rejected bundle" + tag),
                  json.dumps(c.stored[:2])[:300], rec, extra)
       if "replica" in self.oracles:
@@ -398,6 +413,44 @@ def numeric_only(diffs):
       return False
     va, vb = _numval(a), _numval(b)
     if va is None or vb is None or va != vb:
+      return False
+  return True
+
+
+JSON_LIST_PARSED_SIG = ("failed-bundle: rollback of a type change to a list type leaves a JSON-list-looking string parsed into a "
+                        "list (the list column's set() parsed it while the data passed through the new column)")
+TRIGGER_AFTER_ROLLBACK_SIG = ("rejected bundle that removed and re-added records: the rollback's re-added records count as new, and "
+                              "the next calculation runs their trigger (default-value) formulas over the restored values")
+
+
+def trigger_col(schema, tid, cid):
+  info = (schema or {}).get(tid, {}).get(cid)
+  return bool(info and not info[1] and info[2])
+
+
+def json_list_parsed_only(diffs):
+  """Every difference is a cell holding a JSON-list-looking STRING on one side and the list it parses to on the other."""
+  import re
+  from gx.model_tie import jnorm
+  for d in diffs:
+    m = re.match(r"cell \S+: (.*) vs (.*)$", d)
+    if not m:
+      return False
+    try:
+      a, b = eval(m.group(1)), eval(m.group(2))
+    except Exception:
+      return False
+    if a == b or not (isinstance(a, str) and isinstance(b, str)):
+      return False
+    if not ((a.startswith("s[") and b.startswith("o[")) or (b.startswith("s[") and a.startswith("o["))):
+      return False
+    sa, ob = (a, b) if a.startswith("s[") else (b, a)
+    try:
+      lst = json.loads(sa[1:])
+      got = json.loads(ob[1:])
+    except ValueError:
+      return False
+    if not (isinstance(got, list) and got[:1] == ["L"] and got[1:] == lst):
       return False
   return True
 
@@ -520,7 +573,11 @@ EMPTY_KEY_CHANGE_SIG = ("%s: lookup result computed while the looked-up table wa
                         "is re-created by ModifyColumn (the C13 finding: no row exists to carry the invalidation)")
 
 
-def empty_table_key_change_only(doc, diffs, actions):
+UNHASHABLE_KEY_NO_DEP_SIG = ("%s: a lookup that raised TypeError (unhashable key) recorded no dependency: it is not recomputed when "
+                             "ModifyColumn re-creates the key column")
+
+
+def empty_table_key_change_only(doc, diffs, actions, type_error=False):
   """Every difference is a formula cell whose formula looks up an EMPTY table by a column that a ModifyColumn (or
   a type / isFormula update of its metadata record) of this bundle re-created."""
   import re
@@ -545,7 +602,8 @@ def empty_table_key_change_only(doc, diffs, actions):
     for lm in re.finditer(r"(\w+)\.lookup(?:One|Records)\(([^()]*(?:\([^()]*\)[^()]*)*)\)", info[2]):
       t2 = lm.group(1)
       keys = re.findall(r"(?:^|,)\s*(\w+)\s*=", lm.group(2))
-      if t2 in doc.engine.tables and not list(doc.engine.tables[t2].row_ids) and any((t2, k) in changed for k in keys):
+      if t2 in doc.engine.tables and any((t2, k) in changed for k in keys) and \
+          (not list(doc.engine.tables[t2].row_ids) if not type_error else '"TypeError"' in d.split(" vs ")[0]):
         hit = True
     if not hit:
       return False
